@@ -7,7 +7,8 @@ import json, re, sys, os
 root = os.path.dirname(os.path.dirname(os.path.abspath(__file__)))
 out = os.path.join(root, "known_findings.d", "C09.json")
 old = json.load(open(out)) if os.path.exists(out) else []
-fixed = [e for e in old if e.get("status") == "fixed"]
+# kept as they are: fixed entries and the hand-written evaluator-core entries (ev / deterministic witnesses)
+fixed = [e for e in old if e.get("status") == "fixed" or e["key"].startswith("ev:") or e["key"].startswith("txt/witness#")]
 merged = {}
 for p in sys.argv[1:]:
     for sig, g in json.load(open(p)).items():
